@@ -109,7 +109,7 @@ def run(p, led, tier):
                     it.decisions.clear()
                     r = it.call_fi(insp, [tc, mk_peptide(it, canary)], {})
                     return dict(t=nm(r.fields["threat_level"]), a=nm(r.fields["action"]), s1=nm(r.fields["signal1"]), s2=nm(r.fields["signal2"]),
-                                anergic_flag=r.fields.get("is_anergic"), decisions=list(it.decisions))
+                                anergic_flag=r.fields.get("is_anergic"), decisions=list(it.decisions), streak=tc.fields.get("anomaly_count"))
                 try:
                     paths = explore(go, max_paths=400)
                 except (Imprecise, PyRaise) as e:
@@ -126,6 +126,8 @@ def run(p, led, tier):
                         continue
                     if nviol == 0 and (r["t"], r["a"]) != ("NONE", "IGNORE"):
                         probs.append(f"in-baseline behaviour reported {r['t']}/{r['a']} (signal2={r['s2']})")
+                    if nviol == 0 and r["streak"] != 0:
+                        probs.append(f"an in-baseline inspection leaves the anomaly streak at {r['streak']!r}: a later isolated anomaly is counted as 'repeated' and confirmed on one signal")
                     if r["t"] in ("CONFIRMED", "CRITICAL") and (nviol == 0 or not sig2):
                         probs.append(f"{r['t']} without {'a baseline violation' if nviol == 0 else 'any second signal'}")
                     if nviol > 0 and (r["s1"] != "NON_SELF"):
